@@ -25,7 +25,7 @@ CLAIMED = {
                 text='Seeded search over sequences of public operations (constructors with nested arguments, parse, deepcopy, versioning, markings, bundles, factory defaults, store add/read/save/load on the simulated disk, registration, attribute assignment) on a shared pool of caller-owned containers and library objects; after every call - successful, failing or fault-interrupted - every argument and every pooled value must be value-identical, and deep copies must be equal and disjoint.',
                 note='Trusts: own recursive fingerprint walker (types, key order, values, datetime precision metadata) and serialize() text as the observation of "value-identical".'),
     'C17': dict(design='DESIGN.md §3 C17', technique='deterministic simulation with fault injection: seeded wrong-kind corruption of valid objects at the data seams (in flight, text/stream, stored files, saved bundles) through 15 entry points; error-family oracle with watchdog + registry/store failure-atomicity oracle; ddmin replay',
-                text='Stated scope: corruption as a fault (1-3 wrong-kind or degenerate-empty replacements at any depth of a valid object, always JSON-decodable) delivered to parse / constructors / new_version / Bundle / parse_observable and through store add, stored-file read-back and saved-bundle load; the call must terminate and return or raise STIXError/ValueError/TypeError, and after a failing call registries equal their snapshot and stores hold nothing from the failed element. Not claimed: "all JSON values", or that returned objects are fully validated (C02).',
+                text='Stated scope: corruption as a fault (1-3 wrong-kind or degenerate-empty replacements, key injections or key removals at any depth of a valid object, always JSON-decodable) delivered to parse / constructors / new_version / Bundle / parse_observable and through store add, stored-file read-back and saved-bundle load; the call must terminate and return or raise STIXError/ValueError/TypeError, and after a failing call registries (maps and class-level state of every registered class) equal their snapshot and stores hold nothing from the failed element. Not claimed: "all JSON values", deep nesting (RecursionError, see DESIGN section 8), or that returned objects are fully validated (C02).',
                 note='Trusts: the judged scope rule (store entry points are judged for the error family only when the exception comes out of the parse/construct step); junk ids are ignored by the store atomicity comparison; nesting depth of junk is small.'),
     'C19': dict(design='DESIGN.md §3 C19', technique='deterministic simulation: process-wide registries as shared state, seeded registration/parse/lookup/use histories, plain-dict reference model compared in full after every op; ddmin replay',
                 text='Seeded search over histories of registrations through the four decorators of both spec versions (fresh, taken, cross-category and rule-breaking names; legal and rule-breaking property lists; the extension_name form) interleaved with parse in strict/custom mode with and without a named version, class_for_type, and construction / round trip / new_version / store traffic of custom instances.',
